@@ -173,6 +173,10 @@ func replayChainSync(idx int, line []byte, prop string, seed int, root string, r
 		n, diffs := w.check(exp)
 		nchecks += n
 		for _, d := range diffs {
+			if d[0].(string) == "harness" {
+				rep.AddError("trace %d step %d: %v", idx, si, d[1])
+				continue
+			}
 			report(si, d[0].(string), d[1].(string), d[2], d[3])
 		}
 		rep.Nontriv(fmt.Sprintf("%v|%v|%s", exp.Chain, exp.WConf, st.Op))
@@ -326,6 +330,9 @@ func (w *csWorld) check(exp *csObs) (int, [][4]interface{}) {
 			switch {
 			case wc == 0:
 				want = "unconfirmed"
+			case wc > len(exp.Chain):
+				add("harness", fmt.Sprintf("expectation places t%d at position %d of a chain of %d blocks", t+1, wc, len(exp.Chain)), wc, len(exp.Chain))
+				continue
 			case wc > 0:
 				b := w.blockOf[exp.Chain[wc-1]]
 				want = fmt.Sprintf("confirmed in block %d %v (on the best chain)", b.Height, b.Hash)
